@@ -16,13 +16,15 @@ RULE = ("all sequences up to length N (4 quick, 6 thorough) over {#ifdef X, #ifd
         "#define X, #define Y, marker statement}, one per line; directives without macro name; random deeper nestings inside "
         "generated programs; a case is non-trivial if it contains at least one conditional; all sequences are distinct")
 FINISH = dict(level="proof", trusted_base=TRUSTED, rule=RULE)
-SYMS = ["#ifdef X", "#ifdef Y", "#ifndef X", "#ifndef Y", "#else", "#endif", "#define X", "#define Y", "M"]
+# M = a marker declaration; J = a lexically invalid token on a line of its own (an unterminated string): in an enabled region it is
+# an Error token with a diagnostic, in a disabled region it must leave no trace at all
+SYMS = ["#ifdef X", "#ifdef Y", "#ifndef X", "#ifndef Y", "#else", "#endif", "#define X", "#define Y", "M", "J"]
 
 
 def render(seq):
     out = []
     for i, s in enumerate(seq):
-        out.append("def m%d;" % i if s == "M" else s)
+        out.append("def m%d;" % i if s == "M" else ('"j%d' % i if s == "J" else s))
     return "\n".join(out)
 
 
@@ -54,7 +56,7 @@ def reference(seq):
                 macros.add(s.split()[1])
         else:
             if enabled:
-                markers.append(i)
+                markers.append((i, s))
     if stack:
         return False, None
     return True, markers
@@ -102,15 +104,20 @@ def run(ck):
             ne = int(pr.rsplit("ne=", 1)[1]) if "ne=" in pr else -1
             if wn:
                 exp = []
-                for _ in markers:
-                    exp += ["Def", "Id", "Semi"]
+                njunk = 0
+                for _, sym in markers:
+                    exp += ["Def", "Id", "Semi"] if sym == "M" else ["Error"]
+                    njunk += sym == "J"
                 # which markers: compare count and identity through token lengths
                 if kinds != exp:
                     ck.fail(["C15", "selection", " / ".join(seq)], "delivered tokens differ from the reference evaluation for: %s" % " / ".join(seq),
                             {"cmd": "prep", "text_hex": hexs(text)}, kinds, exp)
-                elif ne != 0:
-                    ck.fail(["C15", "diagnostic-from-wellnested", " / ".join(seq)], "well-nested arrangement yields syntax errors: %s" % " / ".join(seq),
+                elif njunk == 0 and ne != 0:
+                    ck.fail(["C15", "diagnostic-from-wellnested", " / ".join(seq)], "well-nested arrangement yields syntax errors (no enabled text has any): %s" % " / ".join(seq),
                             {"cmd": "parse", "text_hex": hexs(text)}, pr, "ne=0")
+                elif njunk > 0 and ne < njunk:
+                    ck.fail(["C15", "enabled-error-lost", " / ".join(seq)], "a lexical error in enabled text is not reported: %s" % " / ".join(seq),
+                            {"cmd": "parse", "text_hex": hexs(text)}, pr, "ne>=%d" % njunk)
             elif unterminated(seq) and ne == 0:
                 last_open_enabled = "enabled" if "Def" in kinds or not kinds else "disabled"
                 ck.fail("C15|unterminated-not-reported", "conditional left unterminated at end of file is not reported: %s" % " / ".join(seq),
@@ -149,7 +156,7 @@ def run(ck):
             for _ in range(rng.choice([1, 2, 3])):
                 c = rng.random()
                 if d <= 0 or c < 0.35:
-                    seq.append(rng.choice(["M", "M", "#define X", "#define Y"]))
+                    seq.append(rng.choice(["M", "M", "#define X", "#define Y", "J"]))
                 else:
                     seq.append(rng.choice(SYMS[:4]))
                     nest(d - 1)
@@ -165,6 +172,8 @@ def run(ck):
         for i, s in enumerate(seq):
             if s == "M":
                 lines.append("def m%d;" % i)
+            elif s == "J":
+                lines.append(rng.choice(['"j%d', "!frob%d(1)", "@ %d", "1..%d", "$ %d"]) % i)
             else:
                 lines.append(s)
             # disabled regions may hold garbage; put some after every conditional opener
@@ -181,8 +190,13 @@ def run(ck):
             continue
         diags = [d for f, ds in res[0] for d in ds]
         names = [s["name"] for s in (res[1] or [])]
-        exp = ["m%d" % i for i in markers]
-        if names != exp or diags:
+        exp = ["m%d" % i for i, sym in markers if sym == "M"]
+        enabled_junk = any(sym == "J" for _, sym in markers)
+        if enabled_junk:
+            if not diags:
+                ck.fail(["C15", "enabled-error-lost", " / ".join(seq)], "a lexical error in enabled text is not reported: %s" % " / ".join(seq),
+                        {"text_hex": hexs(t)}, {"symbols": names, "diagnostics": []}, "at least one diagnostic")
+        elif names != exp or diags:
             ck.fail(["C15", "declarations", " / ".join(seq)], "declarations/diagnostics differ from the enabled markers: %s" % " / ".join(seq),
                     {"text_hex": hexs(t)}, {"symbols": names, "diagnostics": diags[:3]}, {"symbols": exp, "diagnostics": []})
     ck.count("random_nested", len(texts), set(texts), sample={"text": texts[0][:200], "impl": outs[0][:200]})
